@@ -402,6 +402,15 @@ func init() {
 		},
 	})
 	p.Strata = append(p.Strata, mon.Stratum{
+		Name: "long-arrays",
+		N:    qt(2000, 100000),
+		Run: func(c *mon.Ctx, i int) {
+			x, y := gen.LongArrayPair(c.R)
+			c.Feature("long_array_pairs")
+			c03Case(c, ref.ToJSON(gen.Wrap(x, i%3)), ref.ToJSON(gen.Wrap(y, i%3)), gen.PTiny, false)
+		},
+	})
+	p.Strata = append(p.Strata, mon.Stratum{
 		Name: "nested-arrays-biased",
 		N:    qt(20000, 600000),
 		Run: func(c *mon.Ctx, i int) {
